@@ -588,7 +588,325 @@ def contract_addview(case):
     return ("ok", True)
 
 
+# ================================================================================================ alignments (old Alignment)
+ALN_ROOTS = {
+    "a8": {"x": "AC--GTTA", "y": "-CGGT-AC"},
+    "a6": {"x": "ACGT--", "y": "--ACGT"},
+    "a8z": {"x": "AC--GTTA", "y": "-CGGT-AC", "z": "TTGCA--G"},
+}
+# sequence features: (name, seqid, biotype, spans in degapped sequence coordinates, strand)
+# alignment features: (name, None, biotype, spans in alignment columns, strand)
+ALN_FEATS = {
+    "a8": [("g", "x", "gene", [(1, 4)], "+"), ("k", "x", "gene", [(2, 6)], "-"), ("j", "y", "gene", [(1, 4)], "+"),
+           ("h", "y", "cds", [(0, 2), (4, 6)], "-"), ("e", "x", "cds", [(0, 1), (3, 5)], "+"),
+           ("r", None, "reg", [(1, 5)], "+"), ("q", None, "reg", [(0, 2), (5, 7)], "+")],
+    "a6": [("g", "x", "gene", [(1, 3)], "+"), ("j", "y", "gene", [(0, 2)], "-"), ("r", None, "reg", [(1, 4)], "+")],
+    "a8z": [("g", "x", "gene", [(1, 4)], "+"), ("h", "y", "cds", [(0, 2), (4, 6)], "-"), ("m", "z", "gene", [(2, 5)], "-"),
+            ("r", None, "reg", [(2, 6)], "+")],
+}
+
+
+def aln_feature_columns(R, feat):
+    """root columns a feature denotes"""
+    name, seqid, bt, spans, strand = feat
+    if seqid is None:
+        return feat_positions(spans)
+    want = set(feat_positions(spans))
+    out, k = [], 0
+    for c, ch in enumerate(R[seqid]):
+        if ch not in GAPS:
+            if k in want:
+                out.append(c)
+            k += 1
+    return out
+
+
+def aln_view_apply(R, cols, rev, names, op):
+    k = op[0]
+    if k == "s":
+        new = cols[op[1]:op[2]]
+        return new, rev, names
+    if k == "rc":
+        return cols[::-1], not rev, names
+    if k in ("cp", "dc"):
+        return list(cols), rev, names
+    if k == "take":
+        return cols, rev, [n for n in op[1]]
+    raise ValueError(op)
+
+
+def aln_real_apply(a, op):
+    k = op[0]
+    if k == "s":
+        return a[op[1]:op[2]]
+    if k == "rc":
+        return a.rc()
+    if k == "cp":
+        return a.copy()
+    if k == "dc":
+        return _copy.deepcopy(a)
+    if k == "take":
+        return a.take_seqs(list(op[1]))
+    raise ValueError(op)
+
+
+def aln_display(R, cols, rev, names):
+    return {n: (comp("".join(R[n][c] for c in cols)) if rev else "".join(R[n][c] for c in cols)) for n in names}
+
+
+def make_root_aln(rid, featset, load):
+    from cogent3 import make_aligned_seqs
+    R = ALN_ROOTS[rid]
+    a = make_aligned_seqs(dict(R), moltype="dna", array_align=False)
+    feats = [f for f in ALN_FEATS[rid] if featset == "*" or f[0] == featset]
+    if load == "add":
+        for name, seqid, bt, spans, strand in feats:
+            if seqid is None:
+                a.add_feature(biotype=bt, name=name, spans=[list(x) for x in spans], strand=strand, on_alignment=True)
+            else:
+                a.add_feature(seqid=seqid, biotype=bt, name=name, spans=[list(x) for x in spans], strand=strand)
+    else:   # "db": loaded for the alignment -- a db is built first and then attached
+        from cogent3.core.annotation_db import BasicAnnotationDb
+        db = BasicAnnotationDb()
+        for name, seqid, bt, spans, strand in feats:
+            db.add_feature(seqid=seqid, biotype=bt, name=name, spans=[list(x) for x in spans], strand=strand,
+                           on_alignment=seqid is None)
+        a.annotation_db = db
+    return a, feats
+
+
+def gen_aln(tier, seed):
+    rnd = random.Random(seed)
+    thorough = tier == "thorough"
+    for rid, R in ALN_ROOTS.items():
+        if rid == "a8z" and not thorough:
+            continue
+        names = list(R)
+        L = len(R[names[0]])
+        fnames = [f[0] for f in ALN_FEATS[rid]]
+
+        def ops_for(m, nms):
+            o = [["s", a, b] for a in range(m + 1) for b in range(a + 1, m + 1)]
+            o += [["rc"], ["cp"], ["dc"]]
+            o += [["take", [n]] for n in nms] if len(nms) > 1 else []
+            if len(nms) > 2:
+                o += [["take", nms[:2]], ["take", nms[::-1]]]
+            return o
+        hist = [[]] + [[o] for o in ops_for(L, names)]
+        lvl1 = ops_for(L, names)
+        if not thorough:
+            lvl1 = [o for o in lvl1 if o[0] != "s" or (o[2] - o[1]) in (2, 5, L)]
+        for o1 in lvl1:
+            cols, rev, nms = aln_view_apply(R, list(range(L)), False, names, o1)
+            second = ops_for(len(cols), nms)
+            if not thorough:
+                second = [o for i, o in enumerate(second) if o[0] != "s" or i % 2 == 0]
+            hist += [[o1, o2] for o2 in second]
+        for h in hist:
+            for fs in (fnames + ["*"]):
+                if len(h) == 2 and not thorough and fs not in ("*", "g", "h", "r"):
+                    continue
+                for load in ("add", "db"):
+                    if load == "db" and (len(h) == 2 or fs != "*") and not thorough:
+                        continue
+                    yield [rid, load, fs, h]
+        n3 = 600 if thorough else 40
+        for _ in range(n3):
+            cols, rev, nms = list(range(L)), False, names
+            h = []
+            for _d in range(3):
+                cand = ops_for(len(cols), nms)
+                if not cand:
+                    break
+                o = rnd.choice(cand)
+                h.append(o)
+                cols, rev, nms = aln_view_apply(R, cols, rev, nms, o)
+            yield [rid, "add", rnd.choice(fnames + ["*"]), h]
+
+
+def aln_sig(L, cols, rev, hist):
+    return ("rev" if rev else "fwd") + "/after=" + (hist[-1][0] if hist else "root")
+
+
+def _contract_aln(case):
+    rid, load, featset, hist = case
+    R = ALN_ROOTS[rid]
+    names = list(R)
+    L = len(R[names[0]])
+    tag = f"aln/{load}"
+    a, feats = make_root_aln(rid, featset, load)
+    cols, rev, nms = list(range(L)), False, names
+    done = []
+    for op in hist:
+        cols2, rev2, nms2 = aln_view_apply(R, cols, rev, nms, op)
+        done.append(op)
+        try:
+            a = aln_real_apply(a, op)
+        except Exception as e:
+            return ("fail", f"{tag}/history/{op[0]}/raises:{type(e).__name__}/view={aln_sig(L, cols, rev, done[:-1])}",
+                    f"{case}: history step {op} raised {type(e).__name__}: {e}")
+        cols, rev, nms = cols2, rev2, nms2
+    shown = aln_display(R, cols, rev, nms)
+    if a.to_dict() != shown:
+        return ("skip",)        # what the view displays is C03's business
+    sig = aln_sig(L, cols, rev, hist)
+    colset = set(cols)
+    fdict = {f[0]: f for f in feats if f[1] is None or f[1] in nms}
+    C = {n: aln_feature_columns(R, f) for n, f in fdict.items()}
+
+    def expected_slice(n, rows):
+        keep = [c for c in C[n] if c in colset]
+        out = {}
+        for m in rows:
+            t = "".join(R[m][c] for c in keep)
+            out[m] = rc_str(t) if fdict[n][4] == "-" else t
+        return out
+
+    def state(n):
+        k = sum(1 for c in C[n] if c in colset)
+        return "all" if k == len(C[n]) else ("part" if k else "none")
+
+    def member(n, partial):
+        """(must, may) in the coordinates the feature lives in: its own sequence for a sequence feature (the
+        window is what the view displays of that sequence), alignment columns for an alignment feature"""
+        f = fdict[n]
+        if f[1] is None:
+            return membership(C[n], 0, cols, partial)
+        seq_index, k = {}, 0
+        for c, ch in enumerate(R[f[1]]):
+            if ch not in GAPS:
+                seq_index[c] = k
+                k += 1
+        W = [seq_index[c] for c in cols if c in seq_index]
+        if not W:
+            return None     # nothing of that sequence is displayed: membership is left open
+        return membership(feat_positions(f[3]), 0, W, partial)
+
+    nontrivial = False
+    queries = [("all", {}, lambda f: True)]
+    queries += [(f"seqid", {"seqid": m, "on_alignment": False}, (lambda f, m=m: f[1] == m)) for m in nms]
+    queries += [("on_alignment", {"on_alignment": True}, lambda f: f[1] is None)]
+    sliced_ok = {}
+    for qname, kw, selects in queries:
+        for partial in (True, False):
+            ctx = f"{case}: view {shown} get_features({kw}, allow_partial={partial})"
+            try:
+                got = list(a.get_features(allow_partial=partial, **kw))
+            except Exception as e:
+                culprits = []
+                for n in fdict:
+                    try:
+                        list(a.get_features(allow_partial=partial, name=n, **kw))
+                    except Exception:
+                        culprits.append(n)
+                lab = "+".join(sorted({("aln" if fdict[n][1] is None else "seq") + f"{len(fdict[n][3])}span:{state(n)}"
+                                       for n in culprits})) or "no-single-feature"
+                return ("fail", f"{tag}/get_features({qname})/raises:{type(e).__name__}/partial={partial}/{lab}/view={sig}",
+                        f"{ctx} raised {type(e).__name__}: {e} (raises when asked for {culprits} alone)")
+            got_names = [f.name for f in got]
+            if len(set(got_names)) != len(got_names):
+                return ("fail", f"{tag}/get_features({qname})/duplicates/view={sig}", f"{ctx} returned {got_names}")
+            for n, fd in fdict.items():
+                lab = ("aln" if fd[1] is None else "seq") + f"{len(fd[3])}span:{state(n)}"
+                if not selects(fd):
+                    if n in got_names:
+                        return ("fail", f"{tag}/get_features({qname})/not-selected/{lab}/view={sig}",
+                                f"{ctx} returned {got_names}; {n!r} (seqid {fd[1]!r}) is not what was asked for")
+                    continue
+                mm = member(n, partial)
+                if mm is None:
+                    continue
+                must, may = mm
+                if must and n not in got_names:
+                    return ("fail", f"{tag}/get_features({qname})/missing/partial={partial}/{lab}/view={sig}",
+                            f"{ctx} returned {got_names}; feature {n!r} {fd[3]}{fd[4]} on {fd[1] or 'the alignment'} "
+                            f"(root columns {C[n]}) must be returned: the view displays root columns {cols}")
+                if n in got_names and not may:
+                    return ("fail", f"{tag}/get_features({qname})/spurious/partial={partial}/{lab}/view={sig}",
+                            f"{ctx} returned {got_names}; feature {n!r} {fd[3]}{fd[4]} on {fd[1] or 'the alignment'} "
+                            f"(root columns {C[n]}) does not touch the view, which displays root columns {cols}")
+            for f in got:
+                if f.name not in fdict:
+                    return ("fail", f"{tag}/get_features({qname})/unknown-feature/view={sig}", f"{ctx} returned {f.name!r}")
+                fd = fdict[f.name]
+                lab = ("aln" if fd[1] is None else "seq") + f"{len(fd[3])}span{fd[4]}:{state(f.name)}"
+                ident = (f.name, repr(f.map), f._strand)
+                if ident in sliced_ok:
+                    continue
+                exp = expected_slice(f.name, nms)
+                try:
+                    sl = f.get_slice().to_dict()
+                except Exception as e:
+                    return ("fail", f"{tag}/get_slice/raises:{type(e).__name__}/{lab}/view={sig}",
+                            f"{ctx}: get_slice() of {f.name!r} map={f.map} raised {type(e).__name__}: {e}; expected {exp}")
+                if sl != exp:
+                    return ("fail", f"{tag}/get_slice/residues/{lab}/view={sig}",
+                            f"{ctx}: feature {f.name!r} {fd[3]}{fd[4]} on {fd[1] or 'the alignment'} map={f.map} "
+                            f"strand={f._strand} slices to {sl}, spec {exp}")
+                try:
+                    sl2 = a[f].to_dict()
+                except Exception as e:
+                    return ("fail", f"{tag}/getitem-feature/raises:{type(e).__name__}/{lab}/view={sig}",
+                            f"{ctx}: aln[feature] raised {type(e).__name__}: {e}")
+                if sl2 != exp:
+                    return ("fail", f"{tag}/getitem-feature/residues/{lab}/view={sig}",
+                            f"{ctx}: aln[feature {f.name!r}] gives {sl2}, spec {exp}")
+                sliced_ok[ident] = f
+                if any(exp.values()):
+                    nontrivial = True
+    # projection of every distinct returned feature onto every displayed sequence (last: it writes to the db)
+    for ident, f in sliced_ok.items():
+        fd = fdict[f.name]
+        lab = ("aln" if fd[1] is None else "seq") + f"{len(fd[3])}span{fd[4]}:{state(f.name)}"
+        exp = expected_slice(f.name, nms)
+        for m in nms:
+            want = "".join(ch for ch in exp[m] if ch not in GAPS)
+            ctx = f"{case}: view {shown} get_projected_feature(seqid={m!r}, feature={f.name!r} map={f.map})"
+            try:
+                pf = a.get_projected_feature(seqid=m, feature=f)
+                gotp = str(pf.get_slice())
+            except Exception as e:
+                return ("fail", f"{tag}/get_projected_feature/raises:{type(e).__name__}/{lab}/view={sig}",
+                        f"{ctx} raised {type(e).__name__}: {e}; expected {want!r}")
+            if gotp != want:
+                return ("fail", f"{tag}/get_projected_feature/residues/{lab}/view={sig}",
+                        f"{ctx}: projected feature map={pf.map} slices to {gotp!r}, spec {want!r} "
+                        f"(the non-gap residues of {m!r} in the feature's columns)")
+    return ("ok", nontrivial)
+
+
+_ALN_PREFIX_CACHE = {}
+
+
+def contract_aln(case):
+    rid, load, featset, hist = case
+    res = _contract_aln(case)
+    if res[0] == "fail":
+        for k in range(len(hist)):
+            pc = [rid, load, featset, hist[:k]]
+            key = repr(pc)
+            if key not in _ALN_PREFIX_CACHE:
+                _ALN_PREFIX_CACHE[key] = _contract_aln(pc)
+            if _ALN_PREFIX_CACHE[key][0] == "fail":
+                return _ALN_PREFIX_CACHE[key]
+    return res
+
+
 BOUNDED = {
+    "aln_views": {
+        "gen": gen_aln, "contract": contract_aln,
+        "functions": ["Alignment.add_feature", "Alignment.get_features", "Alignment._get_seq_features",
+                      "Alignment.make_feature", "Aligned.make_feature", "Feature.remapped_to", "Feature.get_slice",
+                      "Alignment.__getitem__ (slice, Feature)", "Alignment.rc", "Alignment.take_seqs", "Alignment.copy",
+                      "Alignment.get_projected_feature"],
+        "bound": "old-style Alignment, roots 2x8, 2x6 (thorough: 3x8) with gapped rows; 3-7 features per root: 1- and "
+                 "2-span sequence features on both strands and alignment (on_alignment) features; features added "
+                 "through Alignment.add_feature or attached as a ready db; every history of depth <= 2 over {every "
+                 "column slice, rc, copy, deepcopy, take_seqs} (quick: reduced), depth 3 seeded sample; queries: all, "
+                 "per seqid, on_alignment x allow_partial; every returned feature sliced and projected onto every row",
+        "rule": "a case = (root, load mode, feature set, history); non-trivial when some returned feature has a "
+                "non-empty expected slice",
+    },
     "seq_add_on_view": {
         "gen": gen_addview, "contract": contract_addview,
         "functions": ["Sequence.add_feature", "Sequence.make_feature", "Sequence.get_features", "Feature.get_slice",
